@@ -164,7 +164,7 @@ theorem dispatch_fold (rt : Str) (cd : Cd) (ms : List Msg) :
     simp only [List.foldl_cons]
     by_cases hown : Own rt cd m = true
     · -- own message
-      have hf : (m :: ms).filter (Own rt cd) = m :: ms.filter (Own rt cd) := by simp [List.filter_cons, hown]
+      have hf : (m :: ms).filter (Own rt cd) = m :: ms.filter (Own rt cd) := by simp [hown]
       rw [hf]
       have ht : m.topic = rt := by simp [Own] at hown; exact hown.1.1
       have hc : m.cd = some cd := by simp [Own] at hown; exact hown.1.2
@@ -200,7 +200,7 @@ theorem dispatch_fold (rt : Str) (cd : Cd) (ms : List Msg) :
             simp [h2]
           exact completed_stays rt cd ms _ _ hdone (lookup_del_self _ _)
     · have hown' : Own rt cd m = false := by simpa using hown
-      have hf : (m :: ms).filter (Own rt cd) = ms.filter (Own rt cd) := by simp [List.filter_cons, hown']
+      have hf : (m :: ms).filter (Own rt cd) = ms.filter (Own rt cd) := by simp [hown']
       rw [hf]
       obtain ⟨e1, e2⟩ := dispatch_other rt st m cd hown'
       exact ih _ _ (by rw [e1]; exact h1) (by rw [e2]; exact h2)
